@@ -112,6 +112,7 @@ class Run:
         self.first_sight: set = set()
         self.interest_seen: Dict[str, Tuple[Any, D, Any]] = {}
         self.anomalies: List[str] = []
+        self.listing_stride = 6        # full listing comparison on every n-th snapshot once there are many orders
         self.offgrid_loans = False     # a loan amount off the precision grid was requested (C08's premise is void)
         self.symbols: Dict[str, int] = sc["symbols"]
         self.barmap: Dict[Tuple[str, datetime.datetime], Tuple[D, D, D, D, D]] = {}
@@ -390,7 +391,10 @@ class Run:
                 self.stats["monitor_failures"] += 1
                 import traceback
                 self.res.errors.append("monitor failure: " + traceback.format_exc()[-800:])
-            if self.sc.get("class") != "long" or self.seq % 7 == 0:
+            stride = self.listing_stride if len(orders) > 8 else 1
+            if self.sc.get("class") in ("long", "long_q"):
+                stride = max(stride, 7)
+            if self.seq % stride == 0 or interval[0] == "end":
                 await self.listing_check(snap)
             self.prev = snap
         return snap
@@ -1277,8 +1281,9 @@ def _rejection_origin(name: str, ex) -> str:
     return "other:" + t
 
 
-def run_scenario(sc: Dict[str, Any], res: ShardResult) -> Run:
+def run_scenario(sc: Dict[str, Any], res: ShardResult, listing_stride: int = 6) -> Run:
     run = Run(sc, res)
+    run.listing_stride = listing_stride
     loop = asyncio.new_event_loop()
     try:
         asyncio.set_event_loop(loop)
